@@ -138,6 +138,11 @@ fn run(cmd: &str, args: &[&str]) -> String {
 }
 
 fn main() {
+    if std::env::args().nth(1).as_deref() == Some("uci") {
+        // the real UCI client loop on this process' stdin/stdout (same code as `weechess uci`)
+        let r = weechess_engine::uci::Client::new().exec();
+        std::process::exit(if r.is_ok() { 0 } else { 1 });
+    }
     // keep panic messages out of the result stream; outcome classes are what is compared
     if std::env::var("WV_PANIC_MSG").is_err() {
         std::panic::set_hook(Box::new(|_| {}));
